@@ -407,6 +407,13 @@ pub fn run(seed: u64, count: usize, outdir: &str, jit: bool) -> std::io::Result<
                 let vf = GenericVmFunction::<255>::new(&dag.ctx, &nodes).ok();
                 samples.iter().map(|sp| match (&ivs, &vf) { (Some(iv), Some(vf)) => point_eval(vf, &dag.vs, sp).map(|(pv, _)| pv.iter().zip(iv).any(|(v, i)| v.is_nan() && !i.lower().is_nan() && !i.upper().is_nan())).unwrap_or(false), _ => false }).collect() }
                 _ => vec![false; samples.len()] };
+            // samples at which a min / max of zeros of opposite sign feeds an output: the original returns the zero its rule picks, the
+            // simplified function the operand the trace chose; atan2 or a division downstream turn that into different values
+            let zero_open_at: Vec<bool> = samples.iter().map(|sp| { let mut orc = crate::refeval::Oracle::default();
+                let env = |v: Var| sp[var_id(v, &dag.vs) as usize];
+                let vals = crate::refeval::eval_arena(&dag.ctx, &env, &mut orc);
+                let t = crate::refeval::zero_tie_taint(&dag.ctx, &vals);
+                dag.roots.iter().any(|r| t[r.verif_index()]) }).collect();
             let excused = |orig: &[Vec<f32>], simp: &[Vec<f32>]| -> bool {
                 orig.len() == simp.len() && orig.iter().zip(simp).enumerate().all(|(k, (a, b))| fmt_bits(a) == fmt_bits(b) || (hidden_at.get(k).copied().unwrap_or(false) && a.iter().zip(b).all(|(x, y)| canon_bits(*x) == canon_bits(*y) || x.is_nan()))) };
             for (li, l) in levels.iter().enumerate().skip(1) {
@@ -414,7 +421,7 @@ pub fn run(seed: u64, count: usize, outdir: &str, jit: bool) -> std::io::Result<
                 // (bit for bit, except that two zeros count as equal: a min / max of zeros of opposite sign returns either, and the
                 //  simplified function returns the operand the trace chose — the freedom C02 states for min / max of equal zeros)
                 let zb = |v: &Vec<f32>| fmt_bits(&v.iter().map(|x| if *x == 0.0 { 0.0 } else { *x }).collect::<Vec<f32>>());
-                let same = base.outs.iter().zip(&l.outs).all(|(a, b)| zb(a) == zb(b));
+                let same = base.outs.iter().zip(&l.outs).enumerate().all(|(k, (a, b))| zb(a) == zb(b) || zero_open_at.get(k).copied().unwrap_or(false));
                 if !same {
                     fails += 1;
                     let kind = if excused(&base.outs, &l.outs) { "nan-hidden-by-interval" } else { "value-changed" };
@@ -424,7 +431,7 @@ pub fn run(seed: u64, count: usize, outdir: &str, jit: bool) -> std::io::Result<
                     let z = |v: &Vec<f32>| fmt_bits(&v.iter().map(|x| if *x == 0.0 { 0.0 } else { *x }).collect::<Vec<f32>>());
                     // same evaluator kind on the original and on the simplified function (across kinds the sign of a zero out of min / max,
                     // and whatever atan2 / division make of it, may differ: C02)
-                    let same = base.slice_outs.iter().zip(&l.slice_outs).all(|(a, b)| z(a) == z(b));
+                    let same = base.slice_outs.iter().zip(&l.slice_outs).enumerate().all(|(k, (a, b))| z(a) == z(b) || zero_open_at.get(k).copied().unwrap_or(false));
                     if !same {
                         fails += 1;
                         let kind = if excused(&base.slice_outs, &l.slice_outs) { "nan-hidden-by-interval" } else { "slice-value-changed" };
